@@ -28,6 +28,10 @@ Expect(a, sh, d, c) ==
   ELSE IF a = "marshal_deep" THEN "any"
   ELSE IF ~c /\ a = "get_path" THEN "any"     \* a lazy lookup stops at the addressed value and never sees that the document is cut short
   ELSE IF ~c THEN "error"
+  \* typed destinations, the innermost object holds a value of the wrong type before two known fields: a (well-formed) error
+  ELSE IF sh = "objbad" THEN (IF d <= 4000 THEN "error" ELSE "any")
+  \* recursion through a slice takes two stack slots per level
+  ELSE IF sh = "tree" THEN (IF d <= 2000 THEN "value" ELSE "any")
   ELSE IF d <= 4000 THEN "value"          \* well inside every bound
   ELSE "any"                              \* at and beyond the bound: value or error, never a crash (exact bounds differ per entry point)
 
@@ -37,7 +41,10 @@ Init == IF Mode = "check"
              /\ expect = Outcome(Nest(depth, closed), 4)
         ELSE /\ api \in DecodeAPIs \cup EncodeAPIs
              \* "...sib": the root container has one more member after the deep chain (what is touched after returning from the bound)
-             /\ shape \in (IF api \in {"unmarshal_typed", "marshal_cycle"} THEN {"obj"}
+             \* typed: the plain chain; "objskip" / "objbad": the innermost object has a skipped value (unknown key / wrong type) and then
+             \* two known fields - what the decoder touches right at the bound; "tree": recursion through a slice
+             /\ shape \in (IF api = "unmarshal_typed" THEN {"obj", "objskip", "objbad", "tree"}
+                           ELSE IF api = "marshal_cycle" THEN {"obj"}
                            ELSE IF api \in EncodeAPIs THEN {"arr", "obj", "mixed"}
                            ELSE {"arr", "obj", "mixed", "arrsib", "objsib", "mixedsib"})
              /\ depth \in (IF api = "marshal_cycle" THEN {1} ELSE Depths)
